@@ -73,12 +73,16 @@ def _no_narrowing(ctx, res):
     r2.check_no_operand_narrowing(ctx, res)
 
 
+def count_ok(*files, floor=1):
+    return r2.check_no_count_narrowing(tuple("src/" + f for f in files), floor)
+
+
 T_R2 = "MIR dataflow over operator impls (forwarder classification, operand provenance, cast losslessness, forwarding-graph acyclicity, reviewed leaf table)"
 T_R3 = "CFG dominance / guard-or-forward analysis over MIR in dev and release configurations (mandatory guards, checked-API guard dominance, divisor non-zero provenance)"
 
 PROPS = {
     "C01": {
-        "clauses": [fam("Add", "Sub"), signed("Add", "Sub"), both(r3.check_underflow_asserts), r3.check_checked_sub, r3.check_add2_carry_used, r3.check_underflow_check_sees_all_digits, r3.check_panic_site_table, r4.check_block_loops, r4.check_block_loop_callers, r5check.check_arithmetic({"Add", "Sub"}, 30)],
+        "clauses": [fam("Add", "Sub"), signed("Add", "Sub"), both(r3.check_underflow_asserts), r3.check_checked_sub, r3.check_add2_carry_used, r3.check_underflow_check_sees_all_digits, r3.check_panic_site_table, r4.check_block_loops, r4.check_block_loop_callers, r5check.check_arithmetic({"Add", "Sub"}, 30), count_ok("biguint/addition.rs", "biguint/subtraction.rs", "bigint/addition.rs", "bigint/subtraction.rs", floor=70), r1.check_biguint_normal_form],
         "not_decided": "the scalar tail's adc/sbb arithmetic, carry propagation into the longer operand, result growth",
         "level_text": "Decides structural necessary conditions for every input: the two x86_64 block loops are well-formed carry chains (template data flow, addressing, "
         "counter = len/5, carry preserved to setc, add/sub agree) and hand (carry, done) to the scalar tail; all + and - operator forms forward with operands in order (never swapped for -), "
@@ -87,7 +91,7 @@ PROPS = {
         "technique": T_R2 + "; " + T_R3,
     },
     "C02": {
-        "clauses": [fam("Mul"), signed("Mul"), both(r3.check_underflow_asserts), r3.check_add2_carry_used, r8.check_cost_general, r8.check_shorter_first, r5check.check_arithmetic({"Mul"}, 15)],
+        "clauses": [fam("Mul"), signed("Mul"), both(r3.check_underflow_asserts), r3.check_add2_carry_used, r8.check_cost_general, r8.check_shorter_first, r5check.check_arithmetic({"Mul"}, 15), count_ok("biguint/multiplication.rs", "bigint/multiplication.rs", floor=40), r1.check_biguint_normal_form],
         "not_decided": "temporary sizing, the Karatsuba/Toom-3 algebra, mac_with_carry arithmetic, the power-of-two shortcut (all value-level)",
         "level_text": "Decides: all Mul operator forms forward with operands in either order only because * is commutative, or are reviewed implementations; the carry-overflow "
         "assertion of mac_digit is mandatory in release builds and tests the carry returned by __add2; no call site drops a carry; the regime dispatch has a "
@@ -95,7 +99,7 @@ PROPS = {
         "technique": T_R2 + "; " + T_R3 + "; regime extraction from mac3",
     },
     "C03": {
-        "clauses": [fam("Div", "Rem"), signed("Div", "Rem"), both(r3.check_div_guards), r3.check_checked_div, r3.check_division_sites, r5check.check_arithmetic({"Div", "Rem"}, 30), r5check.check_division_methods],
+        "clauses": [fam("Div", "Rem"), signed("Div", "Rem"), both(r3.check_div_guards), r3.check_checked_div, r3.check_division_sites, r5check.check_arithmetic({"Div", "Rem"}, 30), r5check.check_division_methods, count_ok("biguint/division.rs", "bigint/division.rs", floor=90), r1.check_biguint_normal_form],
         "not_decided": "Knuth algorithm D (trial digit, add-back), normalisation shifts, single-digit loops",
         "level_text": "Decides for every input: each of the ~390 division-family functions either tests its divisor for zero with a release-mode panic before any "
         "division work or forwards the divisor to another division function; the 9 checked division functions return None on the zero edge and reach a "
@@ -104,7 +108,7 @@ PROPS = {
         "technique": T_R3 + "; " + T_R2,
     },
     "C05": {
-        "clauses": [guards("modulus", "exponent"), r3.check_parity_dispatch, r3.check_residue_complement, r3.check_division_sites, r5check.check_modular],
+        "clauses": [guards("modulus", "exponent"), r3.check_parity_dispatch, r3.check_residue_complement, r3.check_division_sites, r3.check_add2_carry_used, both(r3.check_underflow_asserts), r1.check_biguint_normal_form, r5check.check_modular, count_ok("biguint/monty.rs", "biguint/power.rs", "bigint/power.rs", "biguint.rs", "bigint.rs", floor=100)],
         "not_decided": "Montgomery arithmetic, inv_mod_alt, window walk, plain_modpow, extended Euclid",
         "level_text": "Decides: zero-modulus and negative-exponent guards exist in release builds and dominate the computation; the Montgomery path is entered only "
         "behind is_odd(modulus); every modulus-minus-residue complement in modpow/modinv/mod_floor is guarded by residue != 0 (the clause that exposed "
@@ -112,7 +116,7 @@ PROPS = {
         "technique": T_R3,
     },
     "C06": {
-        "clauses": [both(r3.check_radix), r3.check_parse_validation_order, r7.check_bases, r7.check_formatters, r9.check_sign_readers, r1.check_biguint_normal_form],
+        "clauses": [both(r3.check_radix), r3.check_parse_validation_order, r7.check_bases, r7.check_formatters, r9.check_sign_readers, r1.check_biguint_normal_form, count_ok("biguint/convert.rs", "bigint/convert.rs", floor=100)],
         "not_decided": "bit-regrouping and chunked Horner/division arithmetic, the accept/reject language of the digit classifier, padding (delegated to core::fmt)",
         "level_text": "Decides: all 14 radix-taking entry points (7 per type) enforce their documented range - 2..=36 for text, 2..=256 for digit vectors - by a non-debug "
         "assertion of their own or of the callee they forward the radix to, constants read from the MIR comparison operands, in dev and release builds; "
@@ -121,7 +125,7 @@ PROPS = {
         "technique": T_R3 + " with interprocedural radix-range summaries; const-evaluated static tables read from the compiler; MIR argument-provenance tables",
     },
     "C07": {
-        "clauses": [guards("shift"), fam("Shl", "Shr", "BitAnd", "BitOr", "BitXor"), r5check.check_helpers, r5check.check_shifts, r5check.check_bitops],
+        "clauses": [guards("shift"), fam("Shl", "Shr", "BitAnd", "BitOr", "BitXor"), r5check.check_helpers, r5check.check_shifts, r5check.check_bitops, count_ok("biguint/shift.rs", "bigint/shift.rs", "biguint/bits.rs", "bigint/bits.rs", "biguint.rs", "bigint.rs", floor=100), r1.check_biguint_normal_form],
         "not_decided": "running two's-complement carries, intra-digit shifts, bit queries",
         "level_text": "Decides: the negative-shift panic precedes everything else in biguint_shl/biguint_shr in release builds (comparison against T::zero() on the shift "
         "amount); every shift/bit operator form is a verified forwarder or a reviewed implementation.",
@@ -135,7 +139,7 @@ PROPS = {
         "technique": "interprocedural field read-set analysis over MIR (necessity rule: a result that depends on a component must read it)",
     },
     "C08": {
-        "clauses": [r5check.check_conversions, r5check.check_tryfrom_err_carries_input, r5check.check_float_guard, _conv_narrowing],
+        "clauses": [r5check.check_conversions, r5check.check_tryfrom_err_carries_input, r5check.check_float_guard, _conv_narrowing, count_ok("biguint/convert.rs", "bigint/convert.rs", floor=100)],
         "not_decided": "digit accumulation / overflow position in BigUint::to_uN, high_bits_to_u64 and float rounding (ties-to-even, infinity cut-off), from_f64's shift arithmetic, two's-complement magnitude arithmetic of From<iN>",
         "level_text": "Decides the sign-gate and ownership clauses for every input: BigInt::to_{i64,i128,u64,u128} return Some(a) exactly when a fits, including the MIN edge "
         "(|a| compared with 2^63 / 2^127 read from MIR), negative -> None for unsigned targets, zero -> Some(0); BigUint::from_iN rejects negatives; "
@@ -144,14 +148,14 @@ PROPS = {
         "technique": "abstract interpretation over the sign domain (R5) + MIR def-use checks of the error closures + guard dominance",
     },
     "C09": {
-        "clauses": [r9.check_iterators, r9.check_iterator_write_sets, r9.check_sign_readers, r5check.check_constructors, r1.check_biguint_normal_form],
+        "clauses": [r9.check_iterators, r9.check_iterator_write_sets, r9.check_sign_readers, r5check.check_constructors, r1.check_biguint_normal_form, count_ok("biguint/convert.rs", "bigint/convert.rs", "biguint/iter.rs", floor=100)],
         "not_decided": "byte regrouping arithmetic, two's-complement byte loops, iterator value sequences beyond the read-set condition; importer normalisation (planned R1)",
         "level_text": "Decides: every U32Digits cursor method (next, next_back, len, last, count, size_hint) consults all three cursor fields, directly or through the cursor methods "
         "it calls (the rule that exposed the U32Digits::last defect); U64Digits methods delegate to the slice iterator; signed-byte exporters read the sign.",
         "technique": "interprocedural field read-set analysis over MIR (necessity rule)",
     },
     "C10": {
-        "clauses": [_c10_forwarders, _c10_signed, _c10_folds, _no_narrowing, r3.check_panic_site_table, both(r3.check_underflow_asserts), r5check.check_arithmetic(None, 85), r5check.check_powers, r5check.check_upow],
+        "clauses": [_c10_forwarders, _c10_signed, _c10_folds, _no_narrowing, r3.check_panic_site_table, both(r3.check_underflow_asserts), r3.check_add2_carry_used, r5check.check_arithmetic(None, 85), r5check.check_powers, r5check.check_upow],
         "not_decided": "digit splitting/padding inside the unsigned scalar leaves and the digit arithmetic of the leaf implementations",
         "level_text": "Every one of the ~1286 operator impl bodies is classified from its MIR: ~970 are proven pure forwarders (operands reach the "
         "callee in order - swapped only for commutative operators -, scalar promotions are value-preserving casts, the callee's result is the result, "
@@ -161,7 +165,7 @@ PROPS = {
         "technique": T_R2,
     },
     "C11": {
-        "clauses": [guards("root"), r6.check_cfg_taint, r3.check_division_sites, r5check.check_roots, r10.check_fixpoint_invariant],
+        "clauses": [guards("root"), r6.check_cfg_taint, r3.check_division_sites, r5check.check_roots, r10.check_fixpoint_invariant, count_ok("biguint.rs", "bigint.rs", floor=100), r1.check_biguint_normal_form],
         "not_decided": "Newton convergence (assumed: fixpoint reaches the floor root from any guess), the u64 fast path, float guesses",
         "level_text": "Decides: n > 0 (zeroth root) and the imaginary-root assertions (negative with even degree, sqrt of a negative) are mandatory in release builds, "
         "test the right operands and dominate every return; the std/no_std difference in nth_root/sqrt/cbrt is confined to the initial guess passed to "
@@ -169,13 +173,13 @@ PROPS = {
         "technique": T_R3 + "; cross-configuration MIR diff with forward taint (cfg-taint)",
     },
     "C12": {
-        "clauses": [fam("Pow"), _no_narrowing, r5check.check_powers, r5check.check_upow],
+        "clauses": [fam("Pow"), _no_narrowing, r5check.check_powers, r5check.check_upow, count_ok("biguint/power.rs", "bigint/power.rs", floor=30), r1.check_biguint_normal_form],
         "not_decided": "square-and-multiply arithmetic; 0^0 decision order of the BigUint exponent form",
         "level_text": "Decides: all Pow operator forms (by value / by reference, every exponent type) are verified forwarders or reviewed implementations.",
         "technique": T_R2,
     },
     "C13": {
-        "clauses": [r3.check_division_sites, r3.check_gcd_zero_cases, r5check.check_helpers],
+        "clauses": [r3.check_division_sites, r3.check_gcd_zero_cases, r5check.check_helpers, count_ok("biguint.rs", "bigint.rs", floor=100), r1.check_biguint_normal_form],
         "not_decided": "Stein's algorithm, extended_gcd (num-integer), arithmetic of the multiple-of helpers",
         "level_text": "Decides: lcm / gcd_lcm / extended_gcd_lcm divide only by a gcd shown non-zero by a dominating test (own zero test, or the joint zero test of exactly the "
         "gcd's two arguments); is_multiple_of takes the remainder only behind other != 0 and answers self == 0 otherwise.",
@@ -251,7 +255,7 @@ PROPS = {
         "technique": "recurrence extraction: dominance regions of the regime tests in MIR + call-graph reachability for recursive fan-out, evaluated symbolically in Python",
     },
     "C18": {
-        "clauses": [guards("range", "bound"), r10.check_rejection_loop, r10.check_gen_bigint, r10.check_delegations, r10.check_gen_bits, r5check.check_ranges, r4.check_raw_slice_lengths],
+        "clauses": [guards("range", "bound"), r10.check_rejection_loop, r10.check_gen_bigint, r10.check_delegations, r10.check_gen_bits, r5check.check_ranges, r4.check_raw_slice_lengths, count_ok("bigrand.rs", floor=20)],
         "not_decided": "the distribution itself; big-endian word swapping (not compiled on this target); RNG quality",
         "level_text": "Decides: zero bound / empty / inverted range assertions are mandatory and compare the right operands with the right strictness; gen_biguint_below is a "
         "first-candidate rejection loop (bits = bound.bits(), strict <, candidate returned unchanged), hence every value of the range has equally many "
